@@ -673,6 +673,10 @@ class Evaluator:
 
 
 def relerr(a, b):
+    if tuple(a.shape) != tuple(b.shape):
+        return float('inf')
+    if a.numel() == 0:
+        return 0.0
     d = (a - b).abs().max().item()
     s = max(a.abs().max().item(), b.abs().max().item(), 1e-30)
     return d / s
@@ -889,7 +893,10 @@ def run_batch(ctx, cfgs, streams, oracles=(), tol=2e-3, seeds=None, whole_only_o
     outs = ctx.model.ask(lines)
     for (cfg, rr), mo in zip(keep, outs):
         if mo is not None:
-            compare(ctx, cfg, rr, mo, tol=tol, streams=streams)
+            try:
+                compare(ctx, cfg, rr, mo, tol=tol, streams=streams)
+            except Exception as e:  # noqa: BLE001  (the implementation's records are not even of the expected form)
+                ctx.compare('well-formed-records', cfg.describe(), 'well-formed', f'comparison impossible: {type(e).__name__}: {e}'[:300])
     return keep
 
 
